@@ -258,7 +258,7 @@ PROPS = {
     },
     "C10": {
         "propfile": "PropC10.v",
-        "n": {"quick": 24, "thorough": 600},
+        "n": {"quick": 14, "thorough": 600},
         "corr": "pkg/gitinterface GetFilePathsChangedByCommit / GetAllFilesInTree / GetEntriesInTree / TreeBuilder.WriteTreeFromEntries on real "
                 "repositories (git binary) vs the trees as written, raw `git ls-tree -z` output vs GitFormat.print_lstree_z, GitFormat.parse_lstree_z "
                 "on that raw output vs what gitinterface returned; VerifyRefFull (path and commit enumeration through the real gitinterface) vs "
@@ -281,7 +281,7 @@ PROPS = {
     },
     "C18": {
         "propfile": "PropC18.v",
-        "n": {"quick": 40, "thorough": 800},
+        "n": {"quick": 16, "thorough": 800},
         "corr": "internal/propagation.PropagateChangesFromUpstreamRepository on pairs of real repositories, repeated 1-3 times, vs "
                 "Propagate.repeat_propagate: error/ok, the downstream tree (read with `git ls-tree -r -z`, parsed by the harness), commits made, "
                 "propagation entries (ref, tree of the commit named, upstream location, upstream entry); and, on the implementation's answers, the "
@@ -302,7 +302,7 @@ PROPS = {
     },
     "C15": {
         "propfile": "PropC15.v",
-        "n": {"quick": 20, "thorough": 500},
+        "n": {"quick": 10, "thorough": 500},
         "corr": "experimental/gittuf ReconcileLocalRSLWithRemote and sync on pairs of real repositories (local with remote 'origin') vs "
                 "Reconcile.reconcile / Reconcile.sync: error kind, the local log afterwards (independent walker; annotations as positions), local "
                 "and remote refs, the remote log, the diverged-refs list; and, on the implementation's answers, the clauses of the property",
@@ -319,5 +319,26 @@ PROPS = {
             "Sync's propagation step (needs a policy) is not run: the check calls sync, the part of Sync that touches the log and refs; tags and gittuf:// transports are not generated",
         ],
         "assumptions": ["annotations refer only to earlier entries of their own log (targets_below), as entry ids being commit hashes guarantees"],
+    },
+    "C20": {
+        "propfile": "PropC20.v",
+        "n": {"quick": 1, "thorough": 1},
+        "corr": "the live sandbox's environment graph, walked from Go through tables, keys, metatables, __index chains, function environments, upvalues, "
+                "constants, userdata and the string metatable, every Go function named by its symbol, is regenerated on every run and checked by "
+                "Sandbox.sandbox_ok; escape-attempt, library-write, non-termination and exit-code scripts run in the real sandbox",
+        "rule": "1 graph case (about 100 nodes); escape attempts: 12 accessors (global name, getfenv at 6 places, environment of a fresh function, "
+                "string method / member, setfenv) x 5 wrappers (plain, pcall, xpcall, coroutine.wrap, coroutine.resume) x 17 forbidden names (3 for "
+                "string members): each reports whether it obtained a non-nil value; 30 attempts to modify a library table (5 members x 6 routes); "
+                "11 non-terminating scripts under a 1 s timeout (bound: timeout + 8 s); 13 exit-code scripts. Enumerated completely, every case non-trivial",
+        "theorems": ["C20_confinement", "C20_closure_contains_every_path", "C20_sandbox_confines_every_program", "C20_library_tables_out_of_reach",
+                     "C20_timeout_partial", "C20_timeout_refuted", "C20_non_number_is_failure", "C20_selected_hooks_are_assigned"],
+        "trusted": [
+            "the edge relation (what a script can obtain from a held value) is a reading of gopher-lua: fields, __index chains, environments, upvalues and constants over-approximated as obtainable; results of allow-listed functions are assumed to be data, fresh objects or values reachable from their arguments - validated only by the escape scripts",
+            "the allow-list names gopher-lua and gittuf API functions by Go symbol (API closures by '.api<Name>.func'); a renamed function is reported as not allow-listed",
+            "timeouts: partial - the model has atomic steps; the unconditional bound is refuted (K4). Wall-clock measurement with 8 s slack",
+            "hook selection by principal (InvokeHooksForStage) is proved on the model only; it is not exercised on the implementation in this round",
+        ],
+        "assumptions": ["a fresh LuaEnvironment is created per script (as InvokeHooksForStage does)"],
+        "exhaustive": True,
     },
 }
